@@ -37,7 +37,7 @@ theorem ctx_unlocked_readers :
 /-- The fields the discipline is about (everything else is a sync type or immutable after construction). -/
 theorem mutable_fields : (Gen.lockFields.filter (·.2.2 == "mutable")).map (fun x => (x.1, x.2.1)) =
     [("kvElection", "cancel"), ("kvElection", "ctx"), ("kvElection", "onDemote"), ("kvElection", "onPromote"),
-     ("kvElection", "stopped"), ("kvElection", "stopping"), ("kvElection", "termCancel"),
+     ("kvElection", "promoteStarted"), ("kvElection", "stopped"), ("kvElection", "stopping"), ("kvElection", "termCancel"),
      ("disconnectHandler", "disconnectedAt"), ("disconnectHandler", "timer"),
      ("natsConnectionMonitor", "cancel"), ("natsConnectionMonitor", "ctx"), ("natsConnectionMonitor", "disconnectHandler"),
      ("natsConnectionMonitor", "reconnectHandler")] := by decide +kernel
